@@ -29,10 +29,25 @@ package task
 // ---- C16: guards that walk decoded lists (elements are non-nil by the decoder's invariant) ---------
 //@ func shouldRunOnCurrentPlatform
 //@   sweep                                                          [C16]
+// C13: the guard answers nil only if EVERY required variable was looked up in the task's variables and found,
+// and (second guard) no looked-up value fell outside its enum.
+//@ ghost var anyMissing bool scratch
+//@ ghost var anyBad bool scratch
 //@ func (*Executor).areTaskRequiredVarsSet
 //@   sweep                                                          [C16]
+//@   init anyMissing := false
+//@   site (*Vars).Get#1 requires arg0 == t.Vars && arg1 == t.Requires.Vars[$i].Name                  [C13]
+//@   site (*Vars).Get#1 ghost anyMissing := anyMissing || !result.1
+//@   loop 1 invariant anyMissing ==> len(missingVars) > 0                                              [C13]
+//@   ensures result == nil ==> !anyMissing                                                             [C13]
 //@ func (*Executor).areTaskRequiredVarsAllowedValuesSet
 //@   sweep                                                          [C16]
+//@   init anyBad := false
+//@   site (*Vars).Get#1 requires arg0 == t.Vars && arg1 == t.Requires.Vars[$i].Name                  [C13]
+//@   site slices.Contains#1 requires arg0 == t.Requires.Vars[$i].Enum                                [C13]
+//@   site slices.Contains#1 ghost anyBad := anyBad || !result
+//@   loop 1 invariant anyBad ==> len(notAllowedValuesVars) > 0                                         [C13]
+//@   ensures result == nil ==> !anyBad                                                                 [C13]
 
 // ---- C01/C02/C03: dependencies ---------------------------------------------------------------------
 // depCallOK(d): a RunTask call made for dependency entry d has returned nil in this invocation.
@@ -40,6 +55,7 @@ package task
 //@ ghost fact depCallOK(d *ast.Dep)
 // waitErr: what the errgroup reported (the first failure in time): runDeps must hand exactly that on
 //@ ghost var waitErr error scratch
+//@ ghost var depErr error scratch
 //@ ghost table depClo(t *ast.Task, j int) ref local
 
 //@ func (*Executor).runDeps$1
@@ -47,6 +63,8 @@ package task
 //@   site RunTask#1 requires arg2.Task == d.Task && arg2.Vars == d.Vars && arg2.Silent == d.Silent && arg2.Indirect    [C01,C02]
 //@   site RunTask#1 ghost set depCallOK(d) if result == nil
 //@   ensures result == nil ==> depCallOK(d)                                                            [C01,C03]
+//@   site RunTask#1 ghost depErr := result
+//@   ensures result == depErr   -- the dependency's own error (exit status included) is what the group sees [C03]
 
 //@ func (*Executor).runDeps
 //@   modifies heap, fs_exists, fs_ver
@@ -164,8 +182,13 @@ package task
 //@   site (*Executor).CompiledTask#1 ghost fullTask := result.0
 //@   site (*Executor).startExecution#1 requires arg2 == fullTask && arg1 == ctx                        [C06,C03]
 
+//@ ghost var promptDeclined bool scratch
 //@ func (*Executor).RunTask$1
 //@   implements taskBody
+//@   init promptDeclined := false
+//@   site (*Logger).Prompt#1 ghost promptDeclined := result != nil
+//@   loop 1 invariant !promptDeclined
+//@   ensures promptDeclined ==> result != nil      -- a declined prompt (or no terminal) fails the task   [C13]
 //@   requires platformOK(call) && requiredOK(call) && enumOK(call)
 //@   site (*Executor).areTaskPreconditionsMet#1 ghost set precondsOK(call) if result.0 && result.1 == nil
 //@   site (*Logger).Prompt#1 ghost set promptOK(call, $i) if result == nil
@@ -181,14 +204,14 @@ package task
 //@   site (*Executor).runCommand#1 requires forall j {cmdSettled(t, j)} :: 0 <= j && j < $i && !t.Cmds[j].Defer ==>
 //@        cmdSettled(t, j)                                                                             [C02]
 //@   site (*Executor).runCommand#1 requires forall j {cmdOK(t, j)} :: 0 <= j && j < $i && !t.Cmds[j].Defer ==>
-//@        cmdOK(t, j) || (t.IgnoreError && cmdExitFail(t, j))                                          [C03,C13]
+//@        cmdOK(t, j) || (t.IgnoreError && cmdExitFail(t, j))                                          [C03,C13,C07]
 //@   site (*Executor).runCommand#1 ghost set cmdSettled(t, $i)
 //@   site (*Executor).runCommand#1 ghost set cmdOK(t, $i) if result == nil
 //@   site IsExitStatus#1 ghost set cmdExitFail(t, $i) if result.1
 //@   site (*Executor).runDeferred#1 ghost set deferRegistered(t, $i)
 //@   loop 2 invariant forall j {cmdSettled(t, j)} :: 0 <= j && j < $i && !t.Cmds[j].Defer ==> cmdSettled(t, j)   [C02]
 //@   loop 2 invariant forall j {cmdOK(t, j)} :: 0 <= j && j < $i && !t.Cmds[j].Defer ==>
-//@        cmdOK(t, j) || (t.IgnoreError && cmdExitFail(t, j))                                          [C03,C13]
+//@        cmdOK(t, j) || (t.IgnoreError && cmdExitFail(t, j))                                          [C03,C13,C07]
 //@   loop 2 invariant forall j {deferRegistered(t, j)} :: 0 <= j && j < $i && t.Cmds[j].Defer ==> deferRegistered(t, j)     [C14]
 //@   deferrule deferRegistered => deferRan
 //@   requires forall j {deferRegistered(t, j)} :: !deferRegistered(t, j)
@@ -243,6 +266,7 @@ package task
 //@   preserves $RUNDATA
 //@   blocks
 //@   ensures result.1 == nil ==> result.0                                                              [C13]
+//@   ensures result.1 != nil ==> result.1 == ErrPreconditionFailed   -- a guard failure is the sentinel itself, never something that unwraps to an exit status (which ignore_error would swallow)   [C13,C03]
 //@ func (*Executor).statusOnError
 //@   modifies heap, fs_exists, fs_ver
 //@   preserves $RUNDATA
@@ -280,7 +304,7 @@ package task
 //@   site execute#2 ghost set execOK(h) if result == nil
 //@   site execute#2 ghost set execFinished(h)
 //@   site recv#1 ghost set execFinished(h)   -- Done() of the context registered for h is closed only when the registering call returns (defer cancel)
-//@   ensures result == nil && h != "" ==> execFinished(h)   -- nobody proceeds while the one real execution is still running   [C01,C06]
+//@   ensures result == nil && h != "" ==> execFinished(h)   -- nobody proceeds while the one real execution is still running   [C01,C06,C02]
 //@   site context.WithCancel#1 requires arg0 == ctx           -- the shared execution stays cancellable by its first caller    [C03]
 //@   site execute#1 requires arg0 == ctx                                                                  [C03]
 //@   site execute#2 requires arg0 == runCtx                                                               [C03]
@@ -336,7 +360,7 @@ package task
 
 // Listing tasks for an editor (--list --json) is a query: it must never write fingerprints.
 //@ func (*Executor).ToEditorOutput$1
-//@   site fingerprint.WithDry#1 requires arg0                                                         [C12,C04]
+//@   site fingerprint.WithDry#1 requires arg0                                                         [C12,C04,C05]
 
 // Task lookup (C15 examines it); frame only here: it may attach MATCH to the call's variables.
 //@ func (*Executor).GetTask
@@ -396,14 +420,26 @@ package task
 
 // ---- C11: a dynamic variable is looked up, evaluated and recorded in ONE critical section, so that tasks
 // asking for the same sh: text concurrently get the same value as when they run alone
+//@ ghost var evalFailed bool scratch
 //@ func (*Compiler).HandleDynamicVar
 //@   site execext.RunCommand#1 requires held(c.muDynamicCache)                                                 [C11,C18]
+// only the output of a SUCCESSFUL evaluation is remembered (a failure in one task's directory must not become
+// the value another task gets for the same command text)
+//@   init evalFailed := false
+//@   site execext.RunCommand#1 ghost evalFailed := result != nil
+//@   site mapstore#0 requires !evalFailed || arg0 != c.dynamicCache                                            [C11]
 
 // ---- C11: compiling a task builds a fresh object graph ---------------------------------------------------
 // Every command, dependency and precondition put into the compiled task is a copy made during this call (so
 // that templating it, or the lazy templating of deferred commands, never writes into the task definition),
 // and the compiled task itself is a new object.
+//@ ghost var dotSeen bool scratch
 //@ func (*Executor).compiledTask
+// among the dotenv files of a task the FIRST file that defines a name wins: an entry is only added when the
+// name has not been taken yet
+//@   site (*Vars).Get#1 ghost dotSeen := result.1
+//@   site (*Vars).Set#1 requires !dotSeen                                                                      [C10]
+//@   site godotenv.Read#1 requires len(arg0) == 1           -- one file at a time, in the order they are listed   [C10]
 //@   site append requires fresh(arg1[0])                                                                       [C11,C18,C14]
 // every command put into the compiled task (one per loop item, deferred, plain) keeps the attributes that
 // decide how its failure and its output are treated
